@@ -8,6 +8,7 @@ open Datacake Datacake.Cluster Datacake.Keyspace Driver
 structure State where
   c : Cluster := {}
   known : Bool := true      -- false once the case used an operation the model cannot replay (`bulk`)
+  down : List Nat := []     -- nodes that refuse connections (crashed but still selected)
 
 def kvArg (toks : List String) (key : String) : Option Nat :=
   toks.findSome? (fun t => if t.startsWith (key ++ "=") then (t.drop (key.length + 1)).toString.toNat? else none)
@@ -134,6 +135,14 @@ def step (st : State) (toks : List String) : State × String :=
     match j.toNat? with
     | some j => ({ st with c := setNode c j { getNode c j with failNext := true } }, "ok")
     | none => (st, "bad-op")
+  | ["unreach", j] =>
+    match j.toNat? with
+    | some j => ({ st with down := j :: st.down }, "ok")
+    | none => (st, "bad-op")
+  | ["reach", j] =>
+    match j.toNat? with
+    | some j => ({ st with down := st.down.filter (· ≠ j) }, "ok")
+    | none => (st, "bad-op")
   | ["clearfail", j] =>
     match j.toNat? with
     | some j => ({ st with c := setNode c j { getNode c j with failNext := false } }, "ok")
@@ -177,8 +186,10 @@ def step (st : State) (toks : List String) : State × String :=
           if !okLocal then ({ st with c := c1 }, s!"local op={k} ts={ts}")
           else
             let (c2, acks) := targets.foldl (fun (acc : Cluster × Nat) t =>
-              let (c', ok) := applyAt acc.1 t 0 iss
-              (c', acc.2 + (if ok then 1 else 0))) (c1, 0)
+              if st.down.contains t then acc     -- unreachable replica: nothing applied, no acknowledgement
+              else
+                let (c', ok) := applyAt acc.1 t 0 iss
+                (c', acc.2 + (if ok then 1 else 0))) (c1, 0)
             ({ st with c := c2 },
               if acks == targets.length then s!"ok op={k} ts={ts}"
               else s!"consistency {acks}/{targets.length} op={k} ts={ts}")
